@@ -120,7 +120,7 @@ impl<E: El, I: Item<E>> Chain<E, I> {
         let mut cur: Built<E, I> = Built::Pair(values, tap(0, stream));
         for (k, kind) in cfg.stages.iter().copied().enumerate().take(n) {
             let (built, ctl) = match cur {
-                Built::Pair(v, s) => build_on_pair(v, s, kind, k, cfg.obs_init, &log, cfg.via_adapter),
+                Built::Pair(v, s) => build_on_pair(v, s, kind, k, cfg.obs_init, &log, cfg.via_adapter, cfg.static_value),
                 Built::Dyn(ad, _) => {
                     if cfg.direct {
                         build_on_adapter(ad, kind, k, cfg.obs_init, &log)
@@ -129,7 +129,7 @@ impl<E: El, I: Item<E>> Chain<E, I> {
                         reps.push(v.iter().cloned().collect());
                         segs.push(SegR { stages: std::mem::take(&mut cur_seg), last_item: ItemRec::Init, outputs: vec![] });
                         let g = segs.len();
-                        build_on_pair(v, tap(g, s), kind, k, cfg.obs_init, &log, cfg.via_adapter)
+                        build_on_pair(v, tap(g, s), kind, k, cfg.obs_init, &log, cfg.via_adapter, cfg.static_value)
                     }
                 }
             };
@@ -216,7 +216,7 @@ impl<E: El, I: Item<E>> Chain<E, I> {
             st.mark("stacked_on_a_polled_adapter");
             let g = self.segs.len();
             let tapped: BoxS<I> = Box::pin(Tap { inner: s, stage: g, log: log.clone(), ended: false });
-            build_on_pair(v, tapped, kind, k, cfg.obs_init, &log, false)
+            build_on_pair(v, tapped, kind, k, cfg.obs_init, &log, false, false)
         };
         let (lim, src) = match kind.lim() {
             Some(Lim::Static(x)) => (Some(x as usize), None),
